@@ -92,7 +92,12 @@ def r_mat_repinv(rep, f):
         if not lits:
             continue
         rep.fn(fn)
-        sx = SymExec(f, fn, Hooks())
+        class _SX(SymExec):
+            # private helpers of the matrix module (a `band_rows(ml, mu)` computing the stored row count) are interpreted in place
+            def inline_ok(self, d, rec):
+                return str(rec.get("vis", "")).startswith("Restricted") and d.startswith(("matrix::", "<matrix::")) and "::{closure" not in d \
+                    and rec.get("dk") in ("Fn", "AssocFn") and bool(rec.get("has_body"))
+        sx = _SX(f, fn, Hooks())
         sx.bind_params()
         try:
             sx.eval(b["body"])
